@@ -273,15 +273,15 @@ CHECKS["C19"] = {
     "technique": ("property-based testing (rapid) of the production pipeline + baseStage on a real concurrent.Pool with harness-owned completion order "
                   "(gated plan-node operators), reference model for the started set; wave/stress variants with real concurrent completions (-race in the thorough tier)"),
     "rule": ("rapid-generated stage trees (depth 1-4, fan-out 0-4, <= 40 stages; shapes: free sync/async mix, production leaf shape (sync root, async below), all sync, all async, burst), "
-             "outcome per stage ok / ErrNotFound ignored by the plan node / error / ErrNotFound not ignored / panic (string, error, runtime error, other value), plan node single | composite | nil; "
+             "outcome per stage ok / ErrNotFound ignored by the plan node / error / ErrNotFound not ignored / panic (string, error, runtime error, other value); fault point of a panicking stage generated: operator (Execute) | Plan() (inline in the goroutine that completed the parent, also for async stages, i.e. on a pool worker of an async ancestor) | NextStages() (after the operator succeeded; no child started) | Complete() (inside completeStage, of a succeeded or failed stage; only as the first panic of a case); plan node single | composite | nil; "
              "async stages park on a gate inside their operator, gates are released in a generated permutation, the next only after the released stage's Complete() was observed and every newly "
              "submitted stage reached its gate; after the last release the pool is stopped (joins all workers) and the callback counter is final. Oracle: callback exactly once; err != nil iff an executed "
-             "stage failed or panicked; no stage twice, none below a failed stage; without panics started set == model and callback only after every started stage finished. "
-             "non-trivial = an executed failing/panicking stage that is not the last to finish, or >= 2 async siblings that both ran; distinct = hash of (tree, modes, outcomes, plan shapes, release order)"),
+             "stage failed or a stage panicked at any fault point; no stage twice, none below a failed stage; without panics started set == model and callback only after every started stage finished. "
+             "non-trivial = an executed failing/panicking stage that is not the last to finish, or >= 2 async siblings that both ran; distinct = hash of (tree, modes, outcomes, fault points, plan shapes, release order)"),
     "level_text": ("Exploration of generated (tree, outcome, completion-order) cases on the production pipeline/state machine/baseStage/pool code; completion order is owned by the harness in TestPipelineCompletion "
                    "(deterministic, shrinkable); TestPipelineConcurrentWaves and TestConcurrentCompletionStress add real simultaneous completions (unsystematic; oracle holds for every interleaving)."),
     "level_note": ("Trusted: pool.Stop() joins all workers. Not covered: real leaf/root task processors (LeafExecuteContext.SendResponse), context cancellation / stopped pool (Submit drops the task silently), "
-                   "saturated pools, panics inside Stage.Complete()/NextStages()/Plan(). Simultaneous-completion races are only sampled."),
+                   "saturated pools. Complete() panicking as a second panic inside the pool's panic handler is only covered by three fixed shapes run in a child process (TestRegression_CompletePanicsInsidePoolPanicHandler). Pre/Post operators never fail; nil entries in NextStages are not generated. Simultaneous-completion races are only sampled."),
     "assumptions": ["one pool worker per async stage (a parked stage never blocks another one from starting)", "context never cancelled, pool never stopped during a case",
                     "sync stages below async stages are generated although today's production trees do not contain them (the property quantifies over every sync/async mix)"],
     "tests": [
@@ -503,21 +503,24 @@ CHECKS["C12"] = {
     "technique": ("metamorphic property-based testing (rapid): the same generated points are written, through the production routing hash, under 2-4 physical layouts "
                   "(1-6 shards, 1-4 storage nodes = separate databases with their own ids) and every generated query must give the answer of the 1-shard/1-node layout under "
                   "every delivery order of the leaf responses (exhaustive, <= 24) and with an intermediate merge node; reference layout cross-checked against a naive model; "
-                  "leaf-side receiver split checked as a partition; production broker.StateManager plans replayed in regression tests"),
-    "rule": ("case = (data set, query, layout, topology). Data: 1-3 metrics, 2-12 series (tag keys from host/zone/dc; in half of the multi-key metrics a series carries only a non-empty subset of the metric's keys; series may report only some fields), sum/min/max/last/first fields, values k/8, 1-2 families, "
+                  "leaf-side receiver split checked as a partition; production broker.StateManager plans replayed in regression tests; send-interleaved delivery schedules (responses handled while the sender is still sending the plan's requests); goroutine stress of concurrent response handling on a multi-worker root pool with asymmetric payloads"),
+    "rule": ("case = (data set, query, layout, topology, delivery schedule). Data: 1-3 metrics, 2-12 series (tag keys from host/zone/dc; in half of the multi-key metrics a series carries only a non-empty subset of the metric's keys; series may report only some fields), sum/min/max/last/first fields, values k/8, 1-2 families, "
              "one row per series and ingestion request in time order. Query: select list (plain / sum / min / max / last / first as series/field/type.go allows) or *, optional tag condition (=, !=, in, not in, and/or), "
              "time range, group by time(10s..300s), group by tags; group by / tag conditions may name keys that some series of the metric lack (such a series is in no group and is selected by no atom on that key). TestLayoutIndependence non-trivial = >= 2 leaves answered with data and a delivery order different from the send order was run, "
-             "or the intermediate node merged >= 2 leaf answers with data. TestReceiverSplit non-trivial = some group was sent by >= 2 leaves and >= 2 receivers got data. distinct = hash of data+query+layout+topology"),
+             "or the intermediate node merged >= 2 leaf answers with data. TestReceiverSplit non-trivial = some group was sent by >= 2 leaves and >= 2 receivers got data. distinct = hash of data+query+layout+topology. "
+             "Delivery schedule: either all responses after all requests in every order (n!), or send-interleaved: the response of the target contacted i-th is handed to the sender (root, or the intermediate node) inside the transport's SendRequest of request number At[i] >= i - i.e. while the sender still has requests to send - or after the last request; fixed schedule 'every node answers at once' plus 2 drawn schedules per (query, layout) at the root, 'at once' + 1 drawn at the intermediate node. A send-interleaved case is non-trivial when >= 2 leaves answered with data and >= 1 response was handed over while requests remained. "
+             "TestConcurrentResponseHandling: case = (2-4 leaves, one with 1500-3000 series and the others with 1-3, placed by the production routing; 1-3 queries out of group by host / host+time / zone / host+zone / none / none+time with limit 1000000; R = 12-24 executions each). The root handles responses on a production worker pool of 8 workers and the leaf responses of an execution are handed to its task manager from one goroutine each, released by a barrier at the same instant. Every execution must give the answer of the 1-shard/1-node layout; a single wrong execution is a violation (no re-execution rule). Non-trivial = >= 2 leaves answered with data and the largest payload is >= 100 times the smallest"),
     "level_text": ("Generated-input exploration with exhaustive enumeration of the delivery orders (n! for n <= 4 leaves) at the root and at the intermediate node for every generated (query, layout); "
                    "classes recorded: leaves with data / empty answer / not-found, first/last/all-but-one/all not-found, fields differing between leaves, shards, leaves, functions."),
     "level_note": ("Production code: routing (BrokerBatchRows.NewShardGroupIterator), write path, leaf/intermediate/root processors, task managers, planner. Harness: transport, streams, response pool (inline), state-manager answers. "
                    "first/last cells fed by >= 2 series or >= 2 families are only required to hold one of the candidate values (merge order undocumented). Storage state fixed to memory (C11/C03). "
-                   "Plans with several compute targets / the root as compute node cannot complete on this tree (known findings): covered by regression tests, not by the property. Every node of every layout is additionally read back alone (ungrouped and grouped by each tag-key set present) against the naive model. A disagreement counts only if the same execution (query, layout, delivery order) disagrees 3 times in a row; answers not reproduced on re-execution are counted in the class info:answer-not-reproduced-on-re-execution (the timing-dependent leaf double-reduce, fixed by 456d3fc, is covered by its own repeated-query regression test)."),
+                   "Plans with several compute targets / the root as compute node cannot complete on this tree (known findings): covered by regression tests, not by the property. Every node of every layout is additionally read back alone (ungrouped and grouped by each tag-key set present) against the naive model. A disagreement counts only if the same execution (query, layout, delivery order) disagrees 3 times in a row; answers not reproduced on re-execution are counted in the class info:answer-not-reproduced-on-re-execution (the timing-dependent leaf double-reduce, fixed by 456d3fc, is covered by its own repeated-query regression test). The harness also owns the point at the end of the transport's SendRequest. Schedules are positional because production contacts the targets in map-iteration order; which node answers early is therefore not controlled (counted in info:sched:*). A response refused by the sender because it had already finished the request counts as a violation. In TestConcurrentResponseHandling the interleaving of the workers is not controlled (real goroutines, sampled): measured detection of seeded C12c is 10/10 quick runs; a failing case may not reproduce on replay and rapid may report it as flaky (still a failure)."),
     "assumptions": ["TZ=UTC", "every series carries at least one tag", "<= 12 series per case (default series limit 20 not reached)", "<= 1 row per series per ingestion request, rows of a series in time order",
-                    "no order by / limit / having / rate / histogram in the query space", "one storage interval (10s), ranges < 1h"],
+                    "no order by / limit / having / rate / histogram in the query space", "one storage interval (10s), ranges < 1h", "TestConcurrentResponseHandling: one data family, sum/min/max fields only, explicit limit 1000000"],
     "tests": [
         {"name": "TestLayoutIndependence", "quick": 150, "thorough": {"checks": 400, "shards": 16}},
         {"name": "TestReceiverSplit", "quick": 500, "thorough": {"checks": 3000, "shards": 4}},
+        {"name": "TestConcurrentResponseHandling", "quick": 3, "thorough": {"checks": 40, "shards": 4}},
         {"name": "TestRegression_.*", "quick": {}, "thorough": {}},
     ],
 }
